@@ -387,8 +387,11 @@ def _gen_unlim_create(w, rng):
     for nm in rng.sample(VARNAMES, nv):
         dt = rng.choice(["f8", "i8" if w.cfg["format"] == "NETCDF4" else "i4", "f8"])
         vs.append({"name": nm, "dtype": dt, "values": V.gen_values(rng, [n], dt, 0.0)})
-    return {"op": "unlim_create", "path": path, "dim": "t", "labels": labels, "vars": vs,
-            "how": rng.choice(["append_none", "append_none", "append_str"])}
+    st = {"op": "unlim_create", "path": path, "dim": "t", "labels": labels, "vars": vs,
+          "how": rng.choice(["append_none", "append_none", "append_str"])}
+    if rng.random() < 0.5:
+        st["axattrs"] = V.gen_attrs(rng, 0.8, False, ["units", "axis_note"]) or {"units": "days"}
+    return st
 
 
 def x_unlim_create(w, s):
@@ -405,6 +408,7 @@ def x_unlim_create(w, s):
             h.axes.append(dim, None)
             for vs in s["vars"]:
                 a = DimArray(np.array(vs["values"], dtype=V.NP_DTYPE[vs["dtype"]]), axes=[(dim, V.label_array(s["labels"]))])
+                a.axes[0].attrs.update(V._deepcopy_json(s.get("axattrs", {})))     # metadata of the axis that fills the unlimited dimension
                 h[vs["name"]] = a
         finally:
             h.close()
@@ -418,7 +422,7 @@ def x_unlim_create(w, s):
         if "C20" in w.props:
             raise Violation("C20", "unlimited", "creating and filling an unlimited dimension raises %s: %s" % (g[1].__name__, g[2]))
         return "raise"
-    fm.dims[dim] = {"labels": list(s["labels"]), "attrs": {}, "unlimited": True, "unknown": False}
+    fm.dims[dim] = {"labels": list(s["labels"]), "attrs": V._deepcopy_json(s.get("axattrs", {})), "unlimited": True, "unknown": False}
     for vs in s["vars"]:
         fm.vars[vs["name"]] = {"dims": [dim], "values": np.array(vs["values"], dtype=V.NP_DTYPE[vs["dtype"]]), "attrs": {}, "unknown": False}
     w.n_writes += 1
@@ -594,7 +598,7 @@ def _gen_multi(w, rng):
         sec = [d for d in base["dims"] if d != d0 or mode == "stack"]
         if sec:
             d1 = rng.choice(sec)
-            sp = specs[-1]
+            sp = specs[rng.randint(1, len(specs) - 1)]     # the last file, or one in the middle
             labs = sp["dims"][d1]
             if len(labs) >= 2:
                 keep = labs[:-1]
@@ -619,6 +623,8 @@ def _gen_multi(w, rng):
           "sort": rng.random() < 0.3}
     if indices:
         st["indices"] = indices
+    if st["align"] and rng.random() < 0.3:
+        st["join"] = "inner"        # documented: passed on to the alignment
     names = [vs["name"] for vs in base["vars"]]
     r = rng.random()
     st["names"] = None if r < 0.4 else (rng.choice(names) if r < 0.7 else names)
@@ -657,6 +663,8 @@ def x_multi_read(w, s):
         kw["sort"] = True
     if "keys" in s:
         kw["keys"] = list(s["keys"])
+    if s.get("join"):
+        kw["join"] = s["join"]
     names = s["names"]
     da = w.da
     ikw = {"indices": dict(s["indices"])} if s.get("indices") else {}
@@ -671,6 +679,8 @@ def x_multi_read(w, s):
         elif isinstance(names, str):
             singles = [da.Dataset({names: ds[names]}) for ds in singles]
         akw = {"sort": True} if s.get("sort") else {}
+        if s.get("join"):
+            akw["join"] = s["join"]
         if s["mode"] == "stack":
             keys = list(s["keys"]) if "keys" in s else [os.path.splitext(p)[0] for p in paths]
             out = da.stack_ds(singles, axis=s["axis"], keys=keys, align=s["align"], **akw)
